@@ -110,3 +110,25 @@ Theorem C11_checker_input_bounds : forall s,
   chk_C11 s (api_tree s []) = 0.
 Proof. exact BoundsAll.chk_C11_tree_tiny. Qed.
 Print Assumptions C11_checker_input_bounds.
+
+(* ---- larger classes ---- *)
+From RS Require Proofs.CombLeafTree Proofs.WfMoreComb Proofs.ColdCache Proofs.WfMoreWarm.
+From RS Require Import Checkers.ChkHist.
+
+(* trees whose leaves may also be SourceMapSources WITH an inner source map: the checker accepts
+   the model (streams well-formed in all four modes, map() well-formed in both column settings) *)
+Theorem C11_checker_combined_leaves : forall s ws,
+  CombLeafTree.rshape2 s = true -> treeA s = true -> RStreamTree.rsmall s = true -> k1_shape s = false ->
+  WfAllChk.enc_small [] s -> chk_C11 s (api_tree s ws) = 0.
+Proof. exact WfMoreComb.chk_C11_tree2. Qed.
+Print Assumptions C11_checker_combined_leaves.
+
+(* trees with CachedSource nodes, after ANY warm-up calls, no ReplaceSource with replacements above
+   a cache: the checker accepts the model; hypotheses on the input only *)
+Theorem C11_checker_warm_caches : forall s ws,
+  ColdCache.ids_distinct s -> k2_shape s = false ->
+  RStreamTree.rshape (ColdCache.uncache s) = true -> treeA s = true ->
+  BoundsPos.tiny (ColdCache.uncache s) = true -> k1_shape s = false ->
+  chk_C11 s (api_tree s ws) = 0.
+Proof. exact WfMoreWarm.C11_warm_checker. Qed.
+Print Assumptions C11_checker_warm_caches.
